@@ -464,9 +464,19 @@ func (e *Env) versionTables() {
 			}
 		}
 		ps := parsersOf(pk.Types, T)
+		if len(ps) == 0 {
+			// no separate label parser: when the look-up is written out inside the package's GetVersion, that function's
+			// own rule decides which label yields which constant (version-prefix, inline form)
+			if gv, _ := pk.Types.Scope().Lookup("GetVersion").(*types.Func); gv != nil {
+				if sig := gv.Type().(*types.Signature); sig.Results().Len() == 2 && types.Identical(sig.Results().At(0).Type(), T) {
+					e.getVersionShape(gv)
+					c.Ok("version-table", who+" label parser", pos, "written out inside GetVersion: decided path by path (version-prefix)")
+					continue
+				}
+			}
+		}
 		if len(ps) != 1 {
-			// no separate label parser (its loop is written out inside another function), or several candidates:
-			// which strings map to which version is then not decided here
+			// several candidates, or none and no GetVersion either: which strings map to which version is not decided here
 			c.Undecided("version-table", who, pos, fmt.Sprintf("expected exactly one func(string) %s to evaluate on the label domain, found %d", x.typ, len(ps)))
 			continue
 		}
